@@ -78,6 +78,20 @@ def section_wellformed():
                     row('A wellformed', fmt, bad=1)
                     break
             row('A wellformed', fmt, images=1)
+            # the wrapper (all ten inspectors) must name exactly this format: the builders create no accidental polyglot
+            fi = ib._fi()
+            import io
+            w = fi.InspectWrapper(io.BytesIO(img.data))
+            rs = rng.choice([512, 4096, 65536, 1 << 20])
+            while w.read(rs):
+                pass
+            w.close()
+            try:
+                got = str(w.format)
+            except Exception as e:      # noqa
+                got = 'EXN:%s:%s' % (type(e).__name__, e)
+            if got != fmt:
+                fail('A', '%s #%d InspectWrapper.format=%s (read size %d)' % (fmt, i, got, rs))
 
 
 # ---------------------------------------------------------------------------
